@@ -1,4 +1,5 @@
 import MtxVerif.Model.C06
+import MtxVerif.Model.C30
 open MtxVerif MtxVerif.C06
 
 def errName : NameErr → String
@@ -50,6 +51,40 @@ structure D where
 
 def findV (_ : D) (confs : List ConfEntry) (name : Bytes) : FindRes := findPathConf confs name
 
+/-! `paths` op: `recordstore.FindAllPathsWithSegments` (model: `C30.allPaths`) -/
+
+def parseListConfs (col : String) : Option (List C30.Conf) :=
+  (col.splitOn ",").mapM fun e =>
+    match e.splitOn ":" with
+    | [k, kind, f] => do
+      pure { key := ← Hex.decode k, isRegexp := kind == "R", fmt := ← Hex.decode f, deleteAfter := 0 }
+    | _ => none
+
+abbrev RxTable := List (Bytes × Bytes × Bool)
+
+def parseRx (s : String) : RxTable :=
+  if s == "-" then [] else
+  (s.splitOn ";").filterMap fun e =>
+    match e.splitOn "=" with
+    | [kv, b] =>
+      match kv.splitOn "~" with
+      | [k, v] => do pure ((← Hex.decode k), (← Hex.decode v), b == "1")
+      | _ => none
+    | _ => none
+
+def rxLookup (t : RxTable) (k v : Bytes) : Option Bool :=
+  (t.find? fun e => e.1 == k && e.2.1 == v).map (·.2.2)
+
+def dedupStrs : List String → List String
+  | [] => []
+  | x :: xs => if xs.contains x then dedupStrs xs else x :: dedupStrs xs
+
+def listedNames (cwd : Bytes) (rx : RxTable) (dflt : Bool) (confs : List C30.Conf) (files : List Bytes) : String :=
+  let E : C30.Env := { cwd, anch := true, coh := true, now := 0, cal := fun _ => 0,
+                       rx := fun k v => (rxLookup rx k v).getD dflt }
+  let names := C30.allPaths E (files.map fun r => cwd ++ 47 :: r) confs
+  if names.isEmpty then "-" else ",".intercalate (sortStrs (dedupStrs (names.map Hex.encode)))
+
 def step (d : D) (op impl : String) : D × DrvOut :=
   match words op with
   | ["reset"] => (d, { model := "ok" })
@@ -87,6 +122,25 @@ def step (d : D) (op impl : String) : D × DrvOut :=
         | some r => s!"ok {Hex.encode r}"
         | none => "esc"
       (d, { model })
+    | _, _, _ => (d, { model := "bad-op" })
+  | ["paths", cwdH, confsS, filesS, "|", rxS] =>
+    match Hex.decode cwdH, parseListConfs confsS, parseHexList filesS with
+    | some cwd, some confs, some files =>
+      let rx := parseRx rxS
+      let m1 := listedNames cwd rx false confs files
+      let m2 := listedNames cwd rx true confs files
+      let model := if m1 == m2 then s!"{m1} {m1}" else "-"
+      let spec :=
+        match words impl with
+        | [direct, api] =>
+          match parseHexList direct, (if api == "err" then none else parseHexList api) with
+          | some dn, some an =>
+            match (dn ++ an).find? (fun n => !validSpec n) with
+            | some n => s!"FAIL recording listing returned an invalid path name: {Hex.encode n}"
+            | none => "ok"
+          | _, _ => "FAIL unparsable implementation answer"
+        | _ => "FAIL implementation panicked or gave an unparsable answer"
+      (d, { model, spec })
     | _, _, _ => (d, { model := "bad-op" })
   | ["e2e", cwdH, fmtH, nameH, confsS, filesS] =>
     match Hex.decode cwdH, Hex.decode fmtH, Hex.decode nameH, parseConfs confsS, parseHexList filesS with
